@@ -125,9 +125,7 @@ fn exec<V: VringT<GM>>(cmd: &Cmd, vrings: &[V], sh: &Shared, all: &[V]) -> Val {
         Cmd::Regions => match &sh.mem {
             Some(m) => {
                 let g = m.memory();
-                let mut v: Vec<Val> = g.iter().map(|r| Val::L(vec![n(r.start_addr().0), n(r.len())])).collect();
-                v.sort_by_key(|x| x.to_string());
-                Val::L(v)
+                Val::L(g.iter().map(|r| Val::L(vec![n(r.start_addr().0), n(r.len())])).collect())
             }
             None => Val::L(vec![]),
         },
